@@ -1,5 +1,6 @@
 import Irismod.Props.C04
 import Irismod.Props.C03
+import Irismod.Proofs.HtlcMonitor
 open Irismod Irismod.Sdk Irismod.Htlc Irismod.Spec.C03 Irismod.Spec.C04 Irismod.Props.C04 Irismod.Props.C03
 #print axioms counters_reachable
 #print axioms escrowGe_reachable
@@ -16,7 +17,13 @@ open Irismod Irismod.Sdk Irismod.Htlc Irismod.Spec.C03 Irismod.Spec.C04 Irismod.
 #print axioms create_keeps_window
 #print axioms refund_cannot_fail
 #print axioms claim_incoming_never_fails
+-- monitor soundness: the clauses drv-htlc evaluates hold on every model step (Proofs/HtlcMonitor.lean)
+#print axioms Irismod.Proofs.HtlcMonitor.monitorC04_sound
+#print axioms Irismod.Proofs.HtlcMonitor.resetC04_sound
 -- non-vacuity: the demo history (Props/C03 Demo) satisfies the hypotheses (Inv by inv_init, empty escrow, params unchanged)
 -- and reaches a state with non-zero counters where every executable clause of the spec holds; a create naming the escrow
 -- account as recipient is rejected by the model
 #eval s!"nonvacuous {escrowEqB Demo.final && countersB Demo.final && limitsB Demo.final && (supOf Demo.final "htltaaa").current == 40 && (supOf Demo.final "htltaaa").tlCurrent == 0 && Bank.supplyOf Demo.final.bank "htltaaa" == 40 && (step Demo.s0 (.create "A0" "M" [("stake", 5)] (genLock (Demo.sec 1) 0) 0 50 false)).toOption.isNone}"
+
+-- the monitor evaluated on the model's own run of the demo history: no clause fails (instance of monitorC04_sound)
+#eval s!"nonvacuous {(Demo.ops.foldl (fun (acc : State × Bool) op => (apply acc.1 op, acc.2 && (Spec.C04.stepFails Demo.s0 acc.1 op (Irismod.Proofs.HtlcMonitor.acceptedB acc.1 op) (Irismod.Proofs.HtlcMonitor.panickedB acc.1 op) (apply acc.1 op)).isEmpty)) (Demo.s0, true)).2 && (Spec.C04.resetFails Demo.s0).isEmpty}"
